@@ -9,7 +9,7 @@ from vcheck.fl import bits, unbits
 
 PROPERTY = 'C10'
 THEOREMS = ['T4Spec.error_eq_value_times_sigma', 'T4Spec.energy_bins_increasing', 'T4Spec.energy_score_attached',
-            'T4Spec.orient_edges', 'T4Spec.orient_cells', 'T4Spec.decreasing_iff']
+            'T4Spec.orient_edges', 'T4Spec.orient_cells', 'T4Spec.decreasing_iff', 'T4Spec.convert_energy_axis', 'T4Spec.convert_single', 'T4Spec.fillRows_single']
 BUDGET = {'quick': 700, 'thorough': 12000}
 TIME_LIMIT = {'quick': 58, 'thorough': 1200}
 RULE = ('three streams. (unit, 70%) token lists as the grammar hands them to the builders: 1-6 energy groups, optional time steps / '
@@ -27,8 +27,8 @@ TRUSTED = ['harness/props/c10.py (token generator, number re-rendering of listin
            'the pyparsing grammar / transform layer and h5py are exercised end to end against ground truth, not modelled; mesh, Green '
            'bands, IFP, sensitivities, keff and depletion builders have no Lean counterpart']
 ASSUMPTIONS = ['the error is defined as value x sigma% (a negative score has a negative error)',
-               'theorems are stated for the energy axis of one block and for the generic orientation step (reverse); the composition over '
-               'the t / mu / phi axes is covered by the bit-exact correspondence',
+               'theorems are stated for the energy axis of one block (convert_energy_axis ties them to the executable model) and for the generic '
+               'orientation step; the composition over the t / mu / phi axes is covered by the bit-exact correspondence',
                'Apollo3: no Lean model; Reader and Picker are compared with each other and with a metamorphic ground truth']
 
 ROW = re.compile(r'^(\s*)([-+0-9.eE]+) - ([-+0-9.eE]+)(\s+)([-+0-9.eE]+)(\s+)([-+0-9.eE]+)(\s+)([-+0-9.eE]+)(\s*)$')
